@@ -42,6 +42,8 @@ type c04hist struct {
 	Grow     map[[3]int]int
 	Expect   [][]int64 // dumps predicted by the reference interpreter
 	PanicAt  string    // class of the deliberate final panic, "" if none
+	Boundary string    // boundary stream: the cell family of this history
+	Stats    map[string]int
 	Decls    []string
 	impl     outcome
 	ref      outcome
@@ -170,6 +172,11 @@ func (g *c04gen) setup(out *[][]int64) []*c04op {
 
 // c04Generate builds one history.
 func c04Generate(id int, seed uint64, region string, steps int) *c04hist {
+	if strings.HasPrefix(region, "boundary:") {
+		var k int
+		fmt.Sscanf(region, "boundary:%d", &k)
+		return c04Boundary(id, seed, k)
+	}
 	r := newRng(seed)
 	g := c04NewGen(r, region)
 	g.sugarOK = region == "" && r.chance(30)
@@ -413,6 +420,14 @@ func runC04(args []string) error {
 		sm.Evaluations++
 		sm.RefComparisons++
 		sm.count("history")
+		if h.Boundary != "" {
+			sm.count("history:boundary")
+			for k, v := range h.Stats {
+				if strings.HasPrefix(k, "cell:") {
+					sm.Distribution[k] += v
+				}
+			}
+		}
 		if h.Region != "" {
 			sm.count("history:" + h.Region)
 		}
@@ -503,6 +518,15 @@ func runC04(args []string) error {
 			return err
 		}
 	}
+	nsl, nap := 0, 0
+	for k := range sm.Distribution {
+		if strings.HasPrefix(k, "cell:slice:") {
+			nsl++
+		} else if strings.HasPrefix(k, "cell:append:") {
+			nap++
+		}
+	}
+	sm.Notes = append(sm.Notes, fmt.Sprintf("boundary stream: %d slicing cells (operand x lo x hi x max) and %d append cells (kind x destination) hit, each followed by writes through every possibly aliasing slice and an append", nsl, nap))
 	if len(sm.Samples) == 0 && len(hs) > 0 {
 		sm.Samples = append(sm.Samples, sm.CaseIndex[fmt.Sprint(hs[0].ID)])
 	}
@@ -584,6 +608,10 @@ func c04Plan(tier string, seed uint64) (ids []int, seeds []uint64, regions []str
 	mk("", nMain)
 	for _, rg := range c04Regions {
 		mk(rg, nRegion)
+	}
+	// the boundary stream: every cell of the slicing and append cross products, in every run
+	for k := range c04BoundarySpecs() {
+		mk(fmt.Sprintf("boundary:%d", k), 1)
 	}
 	return
 }
@@ -802,7 +830,7 @@ func c04GeneralGrow() string {
 	general := map[[3]int]int{}
 	for ek := 0; ek < 4; ek++ {
 		for c := 0; c <= 48; c++ {
-			for n := c + 1; n <= c+4; n++ {
+			for n := c + 1; n <= c+8; n++ {
 				general[[3]int{ek, c, n}] = c04RealGrow(ek, c, c, n)
 			}
 		}
